@@ -500,7 +500,6 @@ static const family FAMILIES[] = {
   {"F2-memory", f2_count, f2_render, f2_ninputs, f2_input},
   {"F3-cfg", f3_count, f3_render, f3_ninputs, f3_input},
   {"F3r-cfg3-reduced", f3r_count, f3r_render, f3_ninputs, f3_input},
-  {"F3t-cfg3-full", f3t_count, f3t_render, f3_ninputs, f3_input},
   {"F3u-cold-traps", f3u_count, f3u_render, f3u_ninputs, f3u_input},
   {"F4-calls", f4_count, f4_render, in_intgrid_n, in_intgrid},
   {"F5-fp", f5_count, f5_render, f5_ninputs, f5_input, f5_mask},
@@ -513,6 +512,8 @@ static const family FAMILIES[] = {
   {"F13-loop-carried-copies", f13_count, f13_render, f13_ninputs, f13_input},
   {"F14-structured-loops", f14_count, f14_render, f13_ninputs, f13_input},
   {"F15-constant-operands", f15_count, f15_render, f15_ninputs, f15_input},
+  /* thorough only, 1.5e8 programs: kept last so that a deadline cuts this family and no other */
+  {"F3t-cfg3-full", f3t_count, f3t_render, f3_ninputs, f3_input},
 };
 #define NFAM ((int) (sizeof (FAMILIES) / sizeof (FAMILIES[0])))
 #endif
